@@ -203,11 +203,65 @@ def r4(ctx):
     ctx.covered("evaluator branches (function, field, value) applying Expr.minus", n, distinct_keys=["function", "field", "val"])
 
 
+def r5(ctx):
+    """cache write-through: the value stored under an expression's text is the value returned for it (sign included)"""
+    g = ctx.anchor_hir(GCEV)
+    n = 0
+    for kind in ("function", "field"):
+        blk = None
+        for x in walk_exprs(g):
+            if x["k"] == "If" and peel(x["c"], methods=False)["k"] == "LetE" and \
+                    render(peel(x["c"], methods=False)["init"]).endswith("column_expr.%s" % kind):
+                blk = x
+        if blk is None:
+            continue
+        for rtn in [y for y in walk_exprs(blk["t"]) if y["k"] == "Ret" and "e" in y]:
+            e = peel(rtn["e"], methods=False)
+            chain = path_to(blk["t"], rtn)
+            holder = chain[-1][0] if chain else blk["t"]
+            locs = Locals(blk["t"])
+            src = render(locs.chase(e))
+            computed = ("get_function_value" in src or "get_field_value" in src)
+            if not computed:
+                continue    # a value read back from the cache / an empty value
+            n += 1
+            ok = False
+            if e["k"] == "Path" and e.get("rk") == "Local" and holder["k"] == "Block":
+                for s_ in holder["stmts"]:
+                    if s_ is rtn:
+                        break
+                    for c in walk_exprs(s_):
+                        if c["k"] == "MCall" and c["m"] == "insert" and render(c["recv"]) == "file_map" and \
+                                render(c["args"][1]) == "%s.to_string()" % e["name"] and "column_expr" in render(c["args"][0]):
+                            ok = True
+            ctx.obligation(ok)
+            if not ok:
+                ctx.violation("cache/write-through/%s" % kind, ctx.where(GCEV, rtn),
+                              "the value computed for a `%s` node is returned without being stored under the expression's text after the "
+                              "sign was applied; the evaluator's inner cache write holds the unsigned value under the same text, so a "
+                              "second occurrence of the expression in the row reads a different value" % kind)
+    # the arithmetic branch stores what it computes
+    calc = [c for c in walk_exprs(g) if c["k"] == "MCall" and c["m"] == "calc"]
+    for c in calc:
+        chain = path_to(g, c)
+        blks = [a for a, k in chain if a["k"] == "Block"]
+        ok = any(cc["k"] == "MCall" and cc["m"] == "insert" and render(cc["recv"]) == "file_map" and render(cc["args"][1]) == "result.to_string()"
+                 for cc in walk_exprs(blks[-1])) if blks else False
+        n += 1
+        ctx.obligation(ok)
+        if not ok:
+            ctx.violation("cache/write-through/arithmetic", ctx.where(GCEV, c), "the result of an arithmetic node is not stored under its own text")
+    ctx.covered("computed-value returns of get_column_expr_value followed by a cache write of the returned (signed) value", n,
+                distinct_keys=["function", "field", "arithmetic"])
+    ctx.floor(n, 3, "computing branches of get_column_expr_value", GCEV)
+
+
 RULES = [
     ("C15-R1", "precedence layering, left association, brackets, unary minus in the parser", r1),
     ("C15-R2", "ArithmeticOp::calc table and operand order", r2),
     ("C15-R3", "cache key (expression text) depends on every field the evaluator reads", r3),
     ("C15-R4", "unary minus is applied by every evaluator branch", r4),
+    ("C15-R5", "cache write-through: the stored value is the returned (signed) value", r5),
 ]
 
 EXPLANATION = (
